@@ -1,6 +1,8 @@
 package main
 
 import (
+	"sync/atomic"
+	"runtime"
 	"context"
 	"crypto/tls"
 	"crypto/x509"
@@ -157,6 +159,10 @@ type c39World struct {
 	secret [2][]byte
 	close  []func() error
 	run    *mon.Run
+	// gate, when set, holds every remote level-1 fetch until it is closed (a
+	// slow remote control service); entered counts the fetches waiting at it.
+	gate    atomic.Pointer[chan struct{}]
+	entered atomic.Int64
 }
 
 type c39Verifier struct{}
@@ -181,6 +187,10 @@ func (f c39Fetcher) Level1(ctx context.Context, meta drkey.Level1Meta) (drkey.Le
 		return drkey.Level1Key{}, fmt.Errorf("no control service for %s", meta.SrcIA)
 	}
 	f.w.run.Event("level1_fetched_from_remote_cs")
+	f.w.entered.Add(1)
+	if g := f.w.gate.Load(); g != nil {
+		<-*g
+	}
 	pctx := peer.NewContext(ctx, &peer.Peer{
 		Addr: &net.TCPAddr{IP: net.IPv4(192, 0, 2, byte(1+f.self)), Port: 40000},
 		AuthInfo: credentials.TLSInfo{State: tls.ConnectionState{
@@ -726,6 +736,7 @@ func checkC39(r *mon.Run) {
 		go func(wi int) {
 			defer wg.Done()
 			c39RunWorld(r, wi, w, rng, perWorld)
+			c39ConcurrentFetches(r, w, rng, r.Pick(12, 120))
 			fmt.Printf("world %d done after %.1fs\n", wi, time.Since(t0).Seconds())
 			for _, c := range w.close {
 				_ = c()
@@ -744,7 +755,73 @@ func checkC39(r *mon.Run) {
 		fmt.Printf("window part done after %.1fs\n", time.Since(t0).Seconds())
 	}()
 	wg.Wait()
-	r.Require(int64(nWorlds*perWorld*8), 40, "secret_value", "secret_value_repeated_epoch", "level1_src", "level1_dst",
+	r.Require(int64(nWorlds*perWorld*8), 40, "concurrent_fetch_group_overlapped", "concurrent_fetch_key_ok", "secret_value", "secret_value_repeated_epoch", "level1_src", "level1_dst",
 		"level1_fetched_from_remote_cs", "as_host", "host_as", "host_host", "separation_same_input_pair",
 		"separation_distinct_input_pair", "direct_derivation", "window_selected", "window_refused", "timestamp_roundtrip")
+}
+
+// c39ConcurrentFetches: several hosts ask one control service at the same time
+// for keys of the same remote AS and protocol but of DIFFERENT epochs, none of
+// which it has yet, while the remote control service is slow. Each answer must
+// be the key the source AS derives for that request's own validity time.
+func c39ConcurrentFetches(r *mon.Run, w *c39World, rng *rand.Rand, groups int) {
+	ctx := context.Background()
+	for g := 0; g < groups; g++ {
+		s := rng.IntN(2)
+		d := 1 - s
+		proto := uint16(1 + rng.IntN(3))
+		base := time.Unix(4_200_000_000+rng.Int64N(50_000_000)+int64(g)*int64(10*w.dur[s]/time.Second), 0)
+		k := 2 + rng.IntN(3)
+		metas := make([]drkey.ASHostMeta, k)
+		for j := range metas {
+			metas[j] = drkey.ASHostMeta{ProtoId: drkey.Protocol(proto), Validity: base.Add(time.Duration(j) * w.dur[s]),
+				SrcIA: w.ia[s], DstIA: w.ia[d], DstHost: fmt.Sprintf("10.1.%d.%d", g%250, 1+j)}
+		}
+		gate := make(chan struct{})
+		w.gate.Store(&gate)
+		w.entered.Store(0)
+		got := make([]drkey.ASHostKey, k)
+		errs := make([]error, k)
+		var wg sync.WaitGroup
+		for j := range metas {
+			wg.Add(1)
+			go func(j int) {
+				defer wg.Done()
+				got[j], errs[j] = w.eng[d].DeriveASHost(ctx, metas[j])
+			}(j)
+		}
+		for spin := 0; spin < 200 && w.entered.Load() < int64(k); spin++ {
+			if spin > 20 {
+				time.Sleep(20 * time.Microsecond)
+			}
+			runtime.Gosched()
+		}
+		overl := w.entered.Load()
+		w.gate.Store(nil)
+		close(gate)
+		wg.Wait()
+		r.Event("concurrent_fetch_group")
+		if overl >= 2 {
+			r.Event("concurrent_fetch_group_overlapped")
+		}
+		for j := range metas {
+			r.Eval(1)
+			want, werr := w.eng[s].DeriveASHost(ctx, metas[j])
+			if werr != nil || errs[j] != nil {
+				r.Event("concurrent_fetch_error")
+				continue
+			}
+			wit := c39Witness{Step: "concurrent-fetch", Proto: proto, Time: metas[j].Validity, SrcIA: w.ia[s].String(), DstIA: w.ia[d].String(),
+				DstHost: metas[j].DstHost, Engine: "fetching side", Got: mon.Hex(got[j].Key[:]), Want: mon.Hex(want.Key[:]),
+				Note: fmt.Sprintf("%d concurrent requests for %d different epochs, %d remote fetches in flight together", k, k, overl)}
+			switch {
+			case !got[j].Epoch.Contains(metas[j].Validity):
+				r.Violation("C39:concurrent:epoch", fmt.Sprintf("key served for validity %v has epoch [%v, %v)", metas[j].Validity.UTC(), got[j].Epoch.NotBefore.UTC(), got[j].Epoch.NotAfter.UTC()), wit)
+			case got[j].Key != want.Key:
+				r.Violation("C39:concurrent:key-differs-from-source", "the key served differs from the one the source AS derives for the same request", wit)
+			default:
+				r.Event("concurrent_fetch_key_ok")
+			}
+		}
+	}
 }
